@@ -443,6 +443,7 @@ expand(struct token *t)
 {
 	struct macro *m;
 	bool space;
+	size_t i;
 
 	if (t->kind != TIDENT)
 		return false;
@@ -457,6 +458,9 @@ expand(struct token *t)
 			return false;
 		expandfunc(m);
 	}
+	/* names painted during an earlier expansion of this macro are candidates again */
+	for (i = 0; i < m->ntoken; ++i)
+		m->token[i].hide = false;
 	ctxpush(m->token, m->ntoken, m, space);
 	m->hide = true;
 	++macrodepth;
